@@ -31,19 +31,22 @@ Inductive linkT (n : net) : nat -> nat -> Prop :=
 Definition SuppliedT (n : net) : nat -> Prop :=
   SuppliedBy (linkT n) (fun b => bus_oos n b = false) (slack_at n).
 
-(* ---- what the power flow implements (_check_connectivity on the ppc): trafo / trafo3w / impedance branches
-   conduct whatever the state of their buses, a line conducts unless exactly one of its ends is out of service,
-   bus-bus switches conduct between in-service buses; the side of a trafo3w switch is the first matching terminal *)
+(* ---- what the power flow implements (_check_connectivity on the ppc, after the repair "the connectivity check does
+   not walk through out-of-service buses"): a branch conducts between buses that are not out of service, bus-bus switches
+   conduct between in-service buses; the side of a trafo3w switch is the first matching terminal *)
 Definition t3_open_pf (n : net) (t : br3) (side : nat) : bool :=
   existsb (fun s => negb (s_closed s) && swet_eqb (s_et s) ETt3 && Nat.eqb (s_el s) (t_id t)
                     && match t3_side t (s_bus s) with Some k => Nat.eqb k side | None => false end) (switches n).
 Inductive link_pf (n : net) : nat -> nat -> Prop :=
 | LP_line l : In l (lines n) -> r_is l = true -> open_sw n ETl (r_id l) = false ->
-    bus_oos n (r_f l) = bus_oos n (r_t l) -> link_pf n (r_f l) (r_t l)
-| LP_trafo t : In t (trafos n) -> r_is t = true -> open_sw n ETt (r_id t) = false -> link_pf n (r_f t) (r_t t)
-| LP_imp i : In i (imps n) -> r_is i = true -> link_pf n (r_f i) (r_t i)
+    bus_oos n (r_f l) = false -> bus_oos n (r_t l) = false -> link_pf n (r_f l) (r_t l)
+| LP_trafo t : In t (trafos n) -> r_is t = true -> open_sw n ETt (r_id t) = false ->
+    bus_oos n (r_f t) = false -> bus_oos n (r_t t) = false -> link_pf n (r_f t) (r_t t)
+| LP_imp i : In i (imps n) -> r_is i = true ->
+    bus_oos n (r_f i) = false -> bus_oos n (r_t i) = false -> link_pf n (r_f i) (r_t i)
 | LP_t3 t s1 s2 : In t (trafo3ws n) -> t_is t = true -> s1 < 3 -> s2 < 3 ->
-    t3_open_pf n t s1 = false -> t3_open_pf n t s2 = false -> link_pf n (t3_bus t s1) (t3_bus t s2)
+    t3_open_pf n t s1 = false -> t3_open_pf n t s2 = false ->
+    bus_oos n (t3_bus t s1) = false -> bus_oos n (t3_bus t s2) = false -> link_pf n (t3_bus t s1) (t3_bus t s2)
 | LP_sw s : In s (switches n) -> s_et s = ETb -> s_closed s = true ->
     bus_is n (s_bus s) = true -> bus_is n (s_el s) = true -> link_pf n (s_bus s) (s_el s).
 Definition slack_pf (n : net) (b : nat) : Prop :=
